@@ -74,8 +74,8 @@ Section Top.
     unfold peq_cfg in Hc. rewrite Hd in Hc. rewrite Hb1 in Hc. cbn [bind] in Hc.
     inversion Hc; subst c; clear Hc.
     rename a1 into l.
-    destruct a as [| | | | | |va xs| | | |]; try discriminate Ha.
-    destruct b as [| | | | | |vb ys| | | |]; try discriminate Hb.
+    destruct a as [| | | | | |va xs| | | | |]; try discriminate Ha.
+    destruct b as [| | | | | |vb ys| | | | |]; try discriminate Hb.
     destruct va as [va|]; [cbn in Ha; discriminate Ha|].
     destruct vb as [vb|]; [cbn in Hb; discriminate Hb|].
     cbn [value_ok vcfg_get] in Ha, Hb.
@@ -417,8 +417,8 @@ Section EnumTop.
     unfold expand_partial_eq in He. rewrite Hd in He.
     inv_bind He. inv_bind He. inversion He; subst items; clear He. rename a1 into arms.
     unfold peq_cfg in Hc. rewrite Hd in Hc. fold (cfg_entry F traits) in Hc.
-    destruct a as [| | | | | |va xs| | | |]; try discriminate Ha.
-    destruct b as [| | | | | |vb ys| | | |]; try discriminate Hb.
+    destruct a as [| | | | | |va xs| | | | |]; try discriminate Ha.
+    destruct b as [| | | | | |vb ys| | | | |]; try discriminate Hb.
     cbn [value_ok] in Ha, Hb.
     destruct (vcfg_get va c) as [la|] eqn:Ela; [|discriminate Ha].
     destruct (vcfg_get vb c) as [lb|] eqn:Elb; [|discriminate Hb].
